@@ -61,19 +61,13 @@ ProbeOK(mm, pr, lo) ==
   /\ mm.mode = "ready" => mm.col = 0 /\ pr.col = 0
   /\ (~HadError(mm.resp) /\ ~lo) =>
        /\ mm.dptr = pr.dptr
-       /\ ~mm.ctlx =>
+       /\ (~mm.ctlx /\ ~mm.stale) =>
             /\ Len(mm.ctl) = Len(pr.frames) /\ \A i \in 1..Len(mm.ctl) : FrameOK(mm.ctl[i], pr.frames[i])
             /\ pr.junk = (IF mm.mode = "input" THEN 3 ELSE 0)
   /\ (~HadError(mm.resp) /\ mm.mode = "ready" /\ ~mm.contx) => ((mm.cont # NoCont) = pr.cancont)
 
 OutSoFar(mm) == IF mm.resp # <<>> /\ mm.resp[Len(mm.resp)].k = "out" THEN mm.resp[Len(mm.resp)].s ELSE <<>>
 NOuts(mm) == Cardinality({i \in 1..Len(mm.resp) : mm.resp[i].k = "out"})
-
-Apply(mm, c) ==
-  CASE c.k = "line"   -> EnterLine(mm, c.n, c.stmts)
-    [] c.k = "direct" -> EnterDirect(mm, c.stmts)
-    [] c.k = "reply"  -> Reply(mm, c.s)
-    [] c.k = "int"    -> Interrupt([mm EXCEPT !.resp = <<>>])
 
 Init == /\ ci \in ChunkStarts /\ hi = (IF ci + Chunk - 1 < Len(Rec) THEN ci + Chunk - 1 ELSE Len(Rec))
         /\ l = 1 /\ m = InitM /\ ph = "feed" /\ nint = 0 /\ loose = FALSE
@@ -138,7 +132,7 @@ Discard == /\ ph = "run" /\ m.mode = "oom"
 \* fingerprint only what is not a function of the commands consumed so far (the listing and its
 \* analysis are determined by ci and l)
 View == <<ci, l, ph, nint, hi, loose, m.mode, m.pc, m.vars, m.dims, m.deft, m.fns, m.ctl, m.dptr, m.col,
-          m.tron, m.ltr, m.cont, m.contx, m.ctlx, m.inp, m.resp>>
+          m.tron, m.ltr, m.cont, m.contx, m.ctlx, m.stale, m.inp, m.resp>>
 
 Next == Feed \/ Run \/ Intr \/ Match \/ NextCase \/ Stuck \/ Discard
 Spec == Init /\ [][Next]_tvars
